@@ -21,6 +21,13 @@ class ParamStore:
             self.values[key] = self.E.int("p_" + key, lo, hi)
         return self.values[key]
 
+    def bvs(self, key, n, bits):
+        if key not in self.values:
+            if self.E is None:
+                raise KeyError(key)
+            self.values[key] = [self.E.bv(f"p_{key}{i}", bits) for i in range(n)]
+        return self.values[key]
+
     def bools(self, key, n):
         if key not in self.values:
             if self.E is None:
@@ -95,6 +102,13 @@ def probe(d, kind, P):
             return ("precondition not met",)        # these need a non-empty row (C08/C09) / non-empty rows (C05 max)
     if kind == "read":
         return d
+    if kind == "fcol":
+        # a float column broadcast over the rows (an uninterpreted binary ufunc on the symbolic side, np.add at replay); float16 cells are exact IEEE
+        if n == 0:
+            return ("precondition not met",)
+        from . import common as _c
+        col = _c.farr(P.bvs("fc", n, 16), "float16").reshape(-1, 1)
+        return (np.uf_f if _c.SYMBOLIC else np.add)(d.astype("float16"), col)
     if kind == "shape":
         return (len(d), d.shape[1], d.size)
     if kind == "rowint":
@@ -169,3 +183,29 @@ def derive(a, steps, P):
     for k, s in enumerate(steps):
         x = step(x, s, P, f"s{k}")
     return x
+
+
+# ------------------------------------------------------------------ an operation applied to a lazily selected operand (relational)
+VIEW_STEPS = ["rowrev", "rowlist3", "mask", "rowslice_a", "colrev", "colstep2", "colstepm2", "colslice_a"]
+
+
+def view_step(x, kind, P, k="v0"):
+    if kind == "rowlist3":
+        n = len(x)
+        if n == 0:
+            return x[[]]
+        return x[[pyint(P.int(f"{k}i", -n, n - 1)), pyint(P.int(f"{k}j", -n, n - 1)), pyint(P.int(f"{k}k", -n, n - 1))]]
+    return step(x, kind, P, k)
+
+
+def on_view(RaggedArray, lens, data, dtype, pre, op_fn, P):
+    """op_fn applied to d = pre(a) and to a freshly built array with d's rows (second evaluation); returns (obs of op(d), obs of op(f), a after)"""
+    from .common import mk_ragged, obs_ragged, outcome, typed
+    a = mk_ragged(RaggedArray, data, lens, dtype)
+    d = view_step(a, pre, P)
+    d2 = view_step(mk_ragged(RaggedArray, data, lens, dtype), pre, P)
+    o2 = obs_ragged(d2)
+    f = RaggedArray(typed(o2["flat"], dtype), arr(o2["lens"], "int64"))
+    od = outcome(lambda: op_fn(d))
+    of = outcome(lambda: op_fn(f))
+    return od, of, obs_ragged(a)
